@@ -84,7 +84,12 @@ impl DealerSocketOutgoingProcessor {
         );
 
         match self.outgoing_orchestrator.route_message(zmtp_frames_for_logical_message, false).await {
-          Ok(()) => {}
+          Ok(()) => {
+            // One wake-up may stand for several queued messages; keep draining.
+            if !self.pending_queue.lock().await.is_empty() {
+              self.queue_activity_notifier.notify_one();
+            }
+          }
           Err((returned, _)) => {
             tracing::debug!(
               "[DealerProc {}] route_message failed (all peers full or no peers). Re-queuing.",
@@ -605,6 +610,15 @@ impl DealerSocket {
         core_s_read.options.sndhwm.max(1),
       )
     };
+
+    // Messages already parked in the pending queue were accepted earlier and must reach the
+    // peer first: a new message queues up behind them instead of overtaking them.
+    let has_pending = !self.pending_outgoing_queue.lock().await.is_empty();
+    if has_pending {
+      return self
+        .queue_message_or_error(zmtp_wire_frames, global_sndhwm, global_sndtimeo)
+        .await;
+    }
 
     match self.outgoing_orchestrator.route_message(zmtp_wire_frames, false).await {
       Ok(()) => Ok(()),
